@@ -1,2 +1,3 @@
 import MLGen.Tables
 import MLGen.Funcs
+import MLGen.Decisions
